@@ -72,6 +72,6 @@ def sub_fidelity(rho: np.ndarray, sigma: np.ndarray) -> float:
     if not is_density(rho) or not is_density(sigma):
         raise ValueError("Sub-fidelity is only defined for density operators.")
 
-    return np.real(
-        np.trace(rho @ sigma) + np.sqrt(2 * (np.trace(rho @ sigma) ** 2 - np.trace(rho @ sigma @ rho @ sigma)))
-    )
+    # The quantity under the root is non-negative; rounding can make it slightly negative when it vanishes.
+    root_arg = np.real(np.trace(rho @ sigma) ** 2 - np.trace(rho @ sigma @ rho @ sigma))
+    return np.real(np.trace(rho @ sigma) + np.sqrt(2 * max(root_arg, 0.0)))
